@@ -9,7 +9,7 @@ sd = '/tmp/seed/%s/%s' % (pid, m)
 def sh(cmd, **kw):
     return subprocess.run(cmd, shell=True, text=True, stdout=subprocess.PIPE, stderr=subprocess.STDOUT, **kw)
 res = {'property': pid, 'mutant': m}
-sh('git -C %s checkout -q -- . && git -C %s checkout -q --detach main' % (wt, wt))
+sh('git -C %s reset -q --hard && git -C %s clean -fdq && git -C %s checkout -q --detach main' % (wt, wt, wt))
 res['head'] = sh('git -C %s rev-parse --short HEAD' % wt).stdout.strip()
 def demo():
     p = sh('cd %s && PYTHONPATH=%s timeout 120 /venv/bin/python demo.py' % (sd, wt))
@@ -18,7 +18,7 @@ rc0, out0 = demo()
 res['demo_without'] = rc0
 a = sh('git -C %s apply %s/patch.diff' % (wt, sd))
 if a.returncode != 0:
-    a = sh('git -C %s apply -3 %s/patch.diff' % (wt, sd))
+    a = sh('git -C %s apply --recount -C1 %s/patch.diff' % (wt, sd))
 res['applies'] = a.returncode == 0
 res['apply_out'] = a.stdout[-400:]
 if res['applies']:
@@ -30,7 +30,7 @@ if res['applies']:
     res['tests'] = t.stdout[-300:]
     res['tests_ok'] = bool(mm and mm.group(2) == '42' and 'to_async_iter' in t.stdout and 'to_sync_iter' in t.stdout and mm.group(1) == '2')
     sh('git -C %s diff > %s/patch.rebased.diff' % (wt, sd))
-sh('git -C %s checkout -q -- . ; git -C %s clean -fdq' % (wt, wt))
+sh('git -C %s reset -q --hard ; git -C %s clean -fdq' % (wt, wt))
 res['valid'] = bool(res.get('applies') and res.get('tests_ok') and res['demo_without'] == 0 and res.get('demo_with', 0) != 0)
 json.dump(res, open(sd + '/validation.json', 'w'), indent=1)
 print(pid, m, 'VALID' if res['valid'] else 'INVALID', {k: res.get(k) for k in ('applies', 'tests_ok', 'demo_without', 'demo_with')})
